@@ -299,6 +299,31 @@ def vec_to_index_loop(s, rewrites=None):
         s = s[:m.start()] + new + s[cb + 1:]
 
 
+def for_each_to_index_loop(s, rewrites=None):
+    """D21: the statement `V.into_iter().for_each(|x| { BODY });` over a local Vec `V` that is not used afterwards becomes
+        let mut idx_x: usize = 0; while idx_x < V.len() { let x = &V[idx_x]; BODY idx_x += 1; }
+    (for_each calls the closure once per element, in order). BODY sees a reference instead of the owned element, as in the
+    by-value form of D15. Refused when BODY has `return`, `?`, `continue` or `break` (their meaning differs in a closure)."""
+    rx = re.compile(r'^([ \t]*)(\w+)\s*\.into_iter\(\)\s*\.for_each\(\|(\w+)\|\s*\{', re.M)
+    while True:
+        m = rx.search(s)
+        if not m:
+            return s
+        ind, v, x = m.group(1), m.group(2), m.group(3)
+        i = 'idx_' + x
+        ob = m.end() - 1
+        cb = _match(s, ob, '{', '}')
+        body = s[ob + 1:cb]
+        tail = re.match(r'\s*\)\s*;', s[cb + 1:])
+        if not tail or re.search(r'\b(continue|return|break)\b|\?', body) or re.search(r'\b' + v + r'\b', s[cb:]):
+            raise Undecided('unsupported construct: D21 not applicable to for_each over %s' % v)
+        new = ('%slet mut %s: usize = 0;\n%swhile %s < %s.len() {\n%s    let %s = &%s[%s];%s\n%s    %s += 1;\n%s}'
+               % (ind, i, ind, i, v, ind, x, v, i, body.rstrip(), ind, i, ind))
+        if rewrites is not None:
+            rewrites.append('D21 for_each over %s' % v)
+        s = s[:m.start()] + new + s[cb + 1 + tail.end():]
+
+
 def position_to_loop(s, rewrites=None):
     """D17: the expression `E.iter().position(|x| PRED)` over a Vec/VecDeque place E (PRED an expression) becomes the search
     loop it stands for, as a block expression:
